@@ -105,6 +105,10 @@ theorem postRepairKeys_spec (pre : List ServerResult) (ur : List (Nat × Nat)) :
     · exact Or.inl h
     · exact Or.inr (List.mem_map.mpr ⟨(sh, srv), h, rfl⟩)
 
+theorem corrupt_shares_listed_count (k n : Nat) (rs : List ServerResult) :
+    (formatResults k n rs).countCorrupt = (corruptLocators rs).length := by
+  simp [formatResults, corruptLocators, List.length_flatMap]
+
 /-! ## storage spec -/
 
 theorem closeWriter_lookup (st : Store) (sh : Nat) (data : Bytes) (x : Nat) (b : Bytes)
